@@ -98,6 +98,9 @@ public:
    /** Destructor */
    virtual ~TelnetPlainTextMessageIOGateway();
 
+   /** Overridden to also forget any telnet command or subnegotiation we were in the middle of */
+   virtual void Reset();
+
 protected:
    virtual void FilterInputBuffer(char * buf, uint32 & bufLen, uint32 maxLen);
 
